@@ -85,8 +85,10 @@ def judge(ctx, recs, label=None):
                 label=label or "Trace_CryptoByte[%d programs]" % len(recs))
     if r.distinct != max(1, len(recs)):
         raise Machinery("Trace_CryptoByte visited %d states for %d programs" % (r.distinct, len(recs)))
-    return sorted((int(m.group(1)), m.group(2), m.group(3), m.group(4), m.group(5), m.group(6))
-                  for m in re.finditer(r'<<"REJECT", (\d+), "([^"]*)", "([^"]*)", "([^"]*)", (TRUE|FALSE), (\d+)>>', r.out))
+    try:
+        return derlib.rejects(r.out, 5)
+    except ValueError as e:
+        raise Machinery(str(e))
 
 
 def sigkey(sig):
@@ -123,6 +125,8 @@ def selftest(ctx, recs):
 
 
 def replay(ctx, path):
+    import os
+    path = os.path.abspath(path)
     binary = ctx.gobuild("c21")
     body = json.load(open(path))
     if body.get("case", {}).get("obs"):
